@@ -1,4 +1,6 @@
 """C15 - component/transform filters preserve rendering; anchors follow components."""
+from fractions import Fraction
+
 from gen import MATS, outline_font
 from geom import snap_glyphset
 from ufo import build, rat
@@ -7,23 +9,111 @@ ID = "C15"
 PROOF_FILES = ["Geom", "Reverse", "Render", "Flatten", "Propagate", "Propagate2", "Transform", "GoodCert", "C15"]
 THEOREM = ("Ufo2ft.C15.* (affine algebra, reversal laws, bake lemma, decompose/flatten render preservation, compensation; "
            "C15_transform / transform_convex / transform_all: the whole TransformationsFilter maps every included glyph exactly once; "
-           "C15_propagate (+ _placed, _complete, _idempotent, _no_override): the whole PropagateAnchorsFilter satisfies holdsPropagate)")
+           "C15_propagate (+ _placed, _complete, _idempotent, _no_override): the whole PropagateAnchorsFilter satisfies holdsPropagate; "
+           "C15_propagateP / C15_propagate_promotion / promoteSplit_promotes / promoteSplit_raises: the mark-ligature promotion)")
 N = {"quick": 500, "thorough": 8000}
 RULE = ("random component graphs (depth<=4, shared bases, dyadic affine matrices incl. mirrors, shears, rotations, singular) with "
         "line/curve/qcurve contours on a 1/8 grid, x each filter in {decompose, decomposeTransformed, flatten, transformations, "
-        "propagateAnchors} x include subsets x ufoLib2/defcon; the real filter is applied to a glyph set and the glyph set before/after "
+        "propagateAnchors} x include subsets x ufoLib2/defcon; 45% of the propagateAnchors cases are the mark-ligature stream (2-4 mark "
+        "glyphs, line outlines, some empty / open / with a curve, nested mark composites, composites named a_b / a_b.alt / _a_b / ab of 2-3 "
+        "marks at offsets of equal length -> exact distance ties, duplicated components, a non-mark base sometimes); the real filter is applied to a glyph set and the glyph set before/after "
         "is compared with the Lean model point for point, and the declarative predicate (spec renderer) is evaluated on the observed "
-        "result. non-trivial = some glyph reaches depth>=2 or has a det<0 component, and the filter modified something.")
-ASSUMED = ["Slant (math.tan) is external: Slant is 0 in the exact stream", "mark-ligature promotion in propagateAnchors needs outline bounds (external BoundsPen): not generated",
+        "result. non-trivial = some glyph reaches depth>=2 or has a det<0 component, and the filter modified something "
+        "(mark-ligature stream: a ligature-named composite was modified).")
+ASSUMED = ["Slant (math.tan) is external: Slant is 0 in the exact stream",
+           "mark-ligature promotion: `_bounds` is the model's own rule (lineBounds = BoundsPen on outlines without curve segments, compared "
+           "with the pen on every generated component); for components whose outline has curve segments the pen's value is an input "
+           "measured by the harness with fontTools BoundsPen",
            "double arithmetic is exact on the generators' dyadic grids (DESIGN section 3)"]
 
 FILTERS = ["decompose", "decomposeTransformed", "flatten", "transformations", "propagateAnchors"]
 ANCH = ["top", "bottom", "ogonek", "top.alt"]
 
 
+MARKNAMES = ["acutecomb", "gravecomb", "circumflexcomb", "tildecomb", "dotbelowcomb"]
+# offsets of length 50 (and a few others): ties of the squared distance are frequent
+OFFS = [(30, 40), (40, 30), (-30, 40), (50, 0), (0, -50), (0, 0), (14, 48), (0, 50), (25, 0), (-12.5, 6), (100, 200), (0, 300)]
+
+
+def ligmark_font(rng, mode):
+    """mark glyphs (line outlines, sometimes none, sometimes with a curve), optionally nested mark composites, and composites
+    with ligature names made only (mostly) of marks: the promotion branch of `_propagate_glyph_anchors`"""
+    glyphs = []
+    marks = rng.sample(MARKNAMES, rng.choice([2, 3, 4]))
+    tiemode = rng.random() < 0.4          # untransformed components at offsets of equal length: exact ties of the distance
+    corner0 = tiemode or rng.random() < 0.3          # bounds' corner at the origin: the offsets alone decide
+    for nm in marks:
+        g = {"name": nm, "unicodes": [], "width": 0, "contours": [], "components": [], "anchors": []}
+        if rng.random() > (0.15 if mode == "search" else 0.06):
+            for _ in range(rng.choice([1, 1, 2])):
+                x0 = 0 if corner0 else rng.choice([0, 10, -20, 7.5]); y0 = 0 if corner0 else rng.choice([0, 500, -100, 12.5])
+                w = rng.choice([20, 50, 100.5]); h = rng.choice([10, 50, 80])
+                c = [[x0, y0, "line"], [x0 + w, y0, "line"], [x0 + w, y0 + h, "line"], [x0 + rng.choice([0, 5]), y0 + h, "line"]]
+                if rng.random() < 0.15:
+                    c[0][2] = "move"                                   # open contour
+                if rng.random() < 0.08:
+                    c = c[:2] + [[x0 + w + 30, y0 - 40, None], [x0 + w, y0 + h, "qcurve"]] + c[3:]     # curved: the pen's extrema
+                g["contours"].append(c)
+            if rng.random() < 0.1:
+                g["contours"].append([[x0 - 5, y0 - 5, "move"]])      # a single point counts for BoundsPen
+        side = rng.choice(["top", "top", "bottom"])
+        g["anchors"].append(["_" + side, rng.choice([0, 10, 30.5]), rng.choice([0, 480, -20])])
+        if rng.random() < 0.8:
+            g["anchors"].append([side, rng.choice([0, 12, 30]), rng.choice([700, 690.5, -200])])
+        if rng.random() < 0.3:
+            g["anchors"].append([rng.choice(["ogonek", "top.alt", "bottom", "top_1"]), rng.randrange(-50, 50), rng.randrange(-50, 50)])
+        glyphs.append(g)
+    pool = list(marks)
+    if rng.random() < 0.35:                  # a nested mark: composite of one mark with an own mark anchor
+        b = rng.choice(marks)
+        dx, dy = rng.choice(OFFS)
+        glyphs.append({"name": b + ".case", "unicodes": [], "width": 0, "contours": [], "anchors": [["_top", 5, 6]] + ([["top", 5, 60]] if rng.random() < 0.5 else []),
+                       "components": [[b, [1, 0, 0, 1, dx, dy]]]})
+        pool.append(b + ".case")
+    if rng.random() < 0.2:                   # a non-mark glyph: composites that use it are not promoted
+        glyphs.append({"name": "a", "unicodes": [], "width": 500, "contours": [[[0, 0, "line"], [300, 0, "line"], [150, 400, "line"]]],
+                       "components": [], "anchors": [["top", 150, 410], ["bottom", 150, -10]]})
+        pool.append("a")
+    ligs = []
+    for _ in range(rng.choice([1, 2, 3])):
+        ncomp = rng.choice([2, 2, 3])
+        parts = [rng.choice(pool + ligs[-1:]) for _ in range(ncomp)]
+        nm = "_".join(p.split(".")[0] for p in parts) + rng.choice(["", "", ".case", ".alt"])
+        if rng.random() < 0.07:
+            nm = "_" + nm                      # leading underscore: not a ligature name
+        if rng.random() < 0.07:
+            nm = nm.replace("_", "")           # no underscore: not a ligature name
+        if any(g["name"] == nm for g in glyphs):
+            continue
+        comps = []
+        for pth in parts:
+            dx, dy = rng.choice(OFFS[:8] if tiemode else OFFS)
+            m = MATS["id" if tiemode else rng.choice(["id", "id", "id", "id", "mirrorx", "half", "rot90", "sc15"])]
+            comps.append([pth, [m[0], m[1], m[2], m[3], dx, dy]])
+        if rng.random() < 0.15:
+            comps.append(list(map(lambda x: x, comps[0])))     # the same component twice: an exact tie
+        g = {"name": nm, "unicodes": [], "width": 0, "contours": [], "components": comps, "anchors": []}
+        if rng.random() < 0.15:
+            g["anchors"].append([rng.choice(["top", "_top", "bottom", "topright"]), 1, 2])
+        if rng.random() < 0.1:
+            g["contours"].append([[0, 0, "line"], [10, 0, "line"], [0, 10, "line"]])
+        glyphs.append(g); ligs.append(nm)
+    if mode == "search" and rng.random() < 0.3:
+        rng.shuffle(glyphs)
+    cats = [g["name"] for g in glyphs if g["name"].split(".")[0] in MARKNAMES or (g["name"] in ligs and rng.random() < 0.5)]
+    return {"upm": 1000, "glyphs": glyphs, "info": {}, "lib": {}}, cats
+
+
 def gen(rng, n, mode):
     for i in range(n):
         flt = FILTERS[i % len(FILTERS)]
+        if flt == "propagateAnchors" and rng.random() < 0.45:
+            fd, cats = ligmark_font(rng, mode)
+            names = [g["name"] for g in fd["glyphs"]]
+            include = None if rng.random() < 0.6 else [nm for nm in names if rng.random() < 0.7]
+            yield {"filter": flt, "fd": fd, "include": include, "opts": {"OffsetX": 0, "OffsetY": 0, "ScaleX": 100, "ScaleY": 100, "Origin": 4},
+                   "marks": cats if rng.random() < 0.8 else [], "lib": rng.choice(["ufoLib2", "defcon"]), "missing": False, "stream": "ligmark"}
+            continue
         mats = ["id", "id", "mirrorx", "mirrory", "rot90", "rot180", "swap", "half", "shear", "shear2", "sc15", "nonuni", "mirrorshear"]
         if rng.random() < 0.15:
             mats += ["singular", "zero"]
@@ -64,6 +154,30 @@ def _origin_height(origin, cap, xh):
     return {4: 0, 0: cap, 1: otRound(cap / 2), 2: xh, 3: otRound(xh / 2)}[origin]
 
 
+def _bounds_table(gs):
+    """(xMin, yMin) of every component of every composite with a ligature name, measured with the pen `_bounds` uses
+    (fontTools BoundsPen over the glyph set) -- independent of ufo2ft; the model computes the same for line outlines."""
+    from fontTools.pens.boundsPen import BoundsPen
+    out, seen = [], set()
+    for name in gs.keys():
+        g = gs[name]
+        if "_" not in name or name.startswith("_"):
+            continue
+        for c in g.components:
+            key = (c.baseGlyph, tuple(c.transformation))
+            if key in seen:
+                continue
+            seen.add(key)
+            pen = BoundsPen(gs)
+            try:
+                pen.addComponent(c.baseGlyph, tuple(c.transformation))
+                b = None if pen.bounds is None else [rat(pen.bounds[0]), rat(pen.bounds[1])]
+            except Exception:
+                b = None
+            out.append([[c.baseGlyph, [rat(v) for v in c.transformation]], b])
+    return out
+
+
 def run(case):
     from ufo2ft.filters.decomposeComponents import DecomposeComponentsFilter
     from ufo2ft.filters.decomposeTransformedComponents import DecomposeTransformedComponentsFilter
@@ -92,6 +206,7 @@ def run(case):
              "flatten": FlattenComponentsFilter, "propagateAnchors": PropagateAnchorsFilter}[flt](**kw)
     gs = _GlyphSet.from_layer(font, copy=True)
     before = snap_glyphset(gs)
+    bounds = _bounds_table(gs) if flt == "propagateAnchors" else []
     obs = {"err": None}
     try:
         modified = f(font, gs)
@@ -104,13 +219,28 @@ def run(case):
             obs["secondSame"] = snap_glyphset(gs) == obs["glyphs"]
     except Exception as e:
         obs = {"err": type(e).__name__}
-    inp = {"filter": flt, "glyphs": before, "include": case["include"], "marks": case["marks"],
+    inp = {"filter": flt, "glyphs": before, "include": case["include"], "marks": case["marks"], "bounds": bounds,
            "opts": {"OffsetX": rat(o["OffsetX"]), "OffsetY": rat(o["OffsetY"]), "ScaleX": rat(o["ScaleX"]), "ScaleY": rat(o["ScaleY"]),
                     "slantNonzero": False, "tanSlant": "0", "originHeight": rat(_origin_height(o["Origin"], 700, 501))}}
     deep = any(len(g["components"]) and any(any(c2[0] == c[0] for c2 in []) or True for c in g["components"]) for g in fd["glyphs"])
     neg = any(t[0] * t[3] - t[1] * t[2] < 0 for g in fd["glyphs"] for _, t in g["components"])
     nontrivial = bool(obs.get("modified")) and (neg or deep)
-    tags = [flt, case["lib"], "include:" + ("all" if case["include"] is None else "subset"), "err:" + str(obs.get("err")),
+    promoted = [g for g in (obs.get("modified") or []) if "_" in g and not g.startswith("_")]
+    tie = False
+    bt = {(k[0], tuple(k[1])): b for k, b in bounds}
+    for g in before:
+        if g["name"] in promoted:
+            ds = []
+            for b_, t_ in g["comps"]:
+                v = bt.get((b_, tuple(t_)))
+                if v is not None:
+                    x, y = Fraction(v[0]), Fraction(v[1]); ds.append(x * x + y * y)
+            tie = tie or (len(ds) > 1 and ds.count(min(ds)) > 1)
+    if case.get("stream") == "ligmark":
+        nontrivial = bool(promoted)
+    curved = any(pt[2] != "line" and pt[2] != "move" for g in fd["glyphs"] for c in g["contours"] for pt in c)
+    tags = ([case["stream"], "promoted:" + ("yes" if promoted else "no"), "tie:" + ("yes" if tie else "no"),
+             "bounds:" + ("pen-measured(curve)" if curved else "modelled")] if case.get("stream") else []) + [flt, case["lib"], "include:" + ("all" if case["include"] is None else "subset"), "err:" + str(obs.get("err")),
             "modified:" + ("yes" if obs.get("modified") else "no")] + (["det<0"] if neg else [])
     return [{"op": "filter", "in": inp, "obs": obs, "tags": tags, "nontrivial": nontrivial}]
 
@@ -119,6 +249,9 @@ def agree(req, rep):
     m, o = rep["model"], req["obs"]
     if m.get("err") is not None or o.get("err") is not None:
         return m.get("err") == o.get("err")
+    for (k, b), (k2, b2) in zip(req["in"].get("bounds", []), m.get("bounds", [])):
+        if b2 != "curve" and (k != k2 or b != b2):      # the model's BoundsPen rule for line outlines == the pen
+            return False
     return m["glyphs"] == o["glyphs"] and m["modified"] == o["modified"]
 
 
@@ -191,8 +324,10 @@ LEVEL_TEXT = ("Proved (Lean, all inputs): fontTools Transform algebra (compose =
               "transform_nonconvex_counterexample); PropagateAnchorsFilter over the whole glyph set (C15_propagate: for every acyclic "
               "glyph set, mark list and include predicate holdsPropagate holds of the model output: anchors only appended, every added "
               "anchor at T(anchor) of a component's base in the final set under its name or name_N, never under a name the glyph had, "
-              "nothing missing on base-only composites, a second run changes nothing); the executable models of all five filters are tied to the code point "
+              "nothing missing on base-only composites, a second run changes nothing; C15_propagateP adds the mark-ligature promotion: "
+              "exactly one mark component - the first of minimal squared distance of its bounds' corner to the origin - becomes the base, "
+              "the composite carries all and only its anchor names, the run raises exactly when a component has no bounds); the executable models of all five filters are tied to the code point "
               "for point by the correspondence run, and the declarative render-equality predicate is evaluated on the real output.")
-LEVEL_NOTE = ("Trusted: Lean kernel + standard axioms; correspondence harness and its dyadic generators; Slant (tan) and the mark-ligature "
-              "promotion of propagateAnchors (needs outline bounds) are not modelled; TransformationsFilter's include-gap double application "
+LEVEL_NOTE = ("Trusted: Lean kernel + standard axioms; correspondence harness and its dyadic generators; Slant (tan) is not modelled; the bounds "
+              "of components whose outline has curve segments are measured by the harness (fontTools BoundsPen), line outlines are modelled; TransformationsFilter's include-gap double application "
               "is a known finding (see known_findings.json), any other failure is a violation.")
